@@ -146,7 +146,9 @@ def make_m(members, spelling, timeout):
         if has_none and v is None:
             return None if okc and mc is None else ("none_not_passed_through", name, _d(v, okc, mc))
         first = None
-        for mm in MM:
+        for m_, mm in zip(order, MM):
+            if isinstance(m_, NoneS):
+                continue  # the None member accepts None only (its stand-alone routine is a pass-through for anything)
             ok, r = attempt(mm, v)
             if ok:
                 first = (r,)
